@@ -2,6 +2,7 @@ import Driver.Common
 import Logrange.Model.DateParser
 import Logrange.Model.DateLineParser
 import Logrange.Model.DateText
+import Logrange.Model.DateFloat
 import Logrange.Generated.C20
 /-! Model driver for C20 (timestamp text → instant). Requests (byte strings hex, `-` = empty):
 
@@ -15,6 +16,8 @@ import Logrange.Generated.C20
 * `find <regexp> <text>`                 — unanchored leftmost-first search, the matched substring
 * `render col|lql <idx> Y M D h m s ns wd <fracDigits> <offMin> <zname>` — `renderLayout` of the list's format: the text the
   round-trip / first-match theorems are about (compared with Go's `time.Format` of the layout the format denotes)
+* `reldur <numText> <unitNanos>`          — the IEEE model of `time.Duration(ParseFloat(num) * float64(unit))`: the nanoseconds subtracted from
+  now (amd64 conversion), `err` = ParseFloat range error, `unsupported` = not `digits[.digits]`
 * `lp.reset` / `lp.line <nowY> <nowM> <nowD> <line>` — a fresh collector line parser (default list) / its next line:
   `dated <idx> <civil>` | `carried <civil>` | `carried zero`, then ` | skip=<0|1> cnt=<n> maxskip=<n> cur=<i|->`
 
@@ -125,6 +128,10 @@ def stepU (toks : List String) : String :=
        match find rx (unhex t) with
        | some m => (s!"m {hex m}")
        | none => ("nomatch"))
+  | ["reldur", t, m] =>
+    (match m.toNat? with
+     | some mult => relDurText (unhex t) mult
+     | none => "bad-op")
   | _ => ("bad-op")
 
 def step (lp : LP) (toks : List String) : LP × String :=
